@@ -463,3 +463,45 @@ Proof.
     with (v + (- (q1 + q2) * 2 ^ 56) * 256) by (change (2 ^ 64) with (2 ^ 56 * 256) in *; lia).
   apply Z.mod_add. lia.
 Qed.
+
+(* ---- math.Byte / bigEndianByteAt over 64-bit words ------------------------------------------- *)
+Lemma word_at_byte x k : 0 <= x -> 0 <= k ->
+  wrap_u8 (Z.shiftr (word_at x (k ÷ 8)) (8 * Z.rem k 8)) = Z.land (Z.shiftr x (8 * k)) 255.
+Proof.
+  intros Hx Hk. rewrite Z.quot_div_nonneg, Z.rem_mod_nonneg by lia.
+  assert (Hd : 0 <= k / 8 /\ 0 <= k mod 8 < 8 /\ k = 8 * (k / 8) + k mod 8)
+    by (Z.div_mod_to_equations; lia).
+  destruct Hd as (Hq & Hr & Hkk). set (i := k / 8) in *. set (r := k mod 8) in *.
+  unfold wrap_u8, word_at. rewrite Z.abs_eq by lia. rewrite tt64_eq.
+  change 256 with (2 ^ 8). rewrite <- !Z.land_ones by lia. change 255 with (Z.ones 8).
+  rewrite <- !Z.shiftr_div_pow2 by lia.
+  apply Z.bits_inj'. intros n Hn.
+  rewrite !Z.land_spec, !Z.shiftr_spec, Z.land_spec, Z.shiftr_spec, !ones_testbit by lia.
+  destruct (Z.ltb_spec n 8) as [H8|H8]; [|rewrite !Bool.andb_false_r; reflexivity].
+  replace (n + 8 * r <? 64) with true by lia. rewrite !Bool.andb_true_r.
+  f_equal. lia.
+Qed.
+
+Lemma bits_len_bound x : 0 <= x -> x < 2 ^ (64 * bits_len x).
+Proof.
+  intros Hx. pose proof (bitlen_bound x Hx) as Hb. unfold bits_len.
+  assert (Hbl : 0 <= bitlen_of x).
+  { unfold bitlen_of. destruct (x =? 0); [lia|]. pose proof (Z.log2_nonneg (Z.abs x)). lia. }
+  eapply Z.lt_le_trans; [exact Hb|]. apply Z.pow_le_mono_r; [lia|]. Z.div_mod_to_equations. lia.
+Qed.
+Lemma bits_len_nonneg x : 0 <= bits_len x.
+Proof.
+  unfold bits_len. assert (0 <= bitlen_of x).
+  { unfold bitlen_of. destruct (x =? 0); [lia|]. pose proof (Z.log2_nonneg (Z.abs x)). lia. }
+  Z.div_mod_to_equations. lia.
+Qed.
+Lemma byte_beyond_words x k : 0 <= x -> 0 <= k -> bits_len x <= k ÷ 8 ->
+  Z.land (Z.shiftr x (8 * k)) 255 = 0.
+Proof.
+  intros Hx Hk Hle. rewrite Z.quot_div_nonneg in Hle by lia.
+  pose proof (bits_len_bound x Hx) as Hb. pose proof (bits_len_nonneg x) as Hn.
+  rewrite Z.shiftr_div_pow2 by lia.
+  assert (2 ^ (64 * bits_len x) <= 2 ^ (8 * k)).
+  { apply Z.pow_le_mono_r; [lia|]. Z.div_mod_to_equations. lia. }
+  rewrite Z.div_small by lia. reflexivity.
+Qed.
